@@ -541,6 +541,18 @@ func c08Judge(c *wk.Ctx, t *c08Transcript, f c08Fault, res *c08Outcome, wit map[
 						}
 					}
 				}
+				// a byte in the TEXT of the output ID pushed out of ASCII: the text is no longer valid UTF-8, which CBOR
+				// text strings must be, so what arrived is not a well-formed work-done message
+				if i := bytes.Index(m.bytes, []byte("\x69output_id")); i >= 0 && !hit {
+					vh := i + 10 // header of the value: text of length < 24
+					if vh < len(m.bytes) && m.bytes[vh]>>5 == 3 && m.bytes[vh]&0x1f < 24 {
+						n := int(m.bytes[vh] & 0x1f)
+						if rel > vh && rel <= vh+n && m.bytes[rel] < 0x80 && (m.bytes[rel]^f.garbage[0]) >= 0x80 {
+							hit = true
+							c.Count("flips_that_break_the_utf8_of_an_output_id")
+						}
+					}
+				}
 				if hit {
 					c.Count("flips_in_the_envelope_of_a_work_done")
 					if rel > 0 {
